@@ -24,7 +24,7 @@ STUBS = ["alignment_info -> fake carrying read_exons/read_start/read_end/combine
          "symbolic ints (its contract; the aligned-pairs walk over pysam data is not encoded)",
          "BED text: %d fields are sentinel tokens mapped back to the symbolic terms"]
 ASSUMPTIONS = ["annotations are the catalogue loci of C01", "short-read correction: read exons are at least 10 bp long", "read shapes: following an isoform sub-chain within delta; the same with one inner exon "
-               "dropped or shortened (misalignment shapes)", "short-read introns: sorted list of <=3 disjoint intervals"]
+               "dropped or shortened (misalignment shapes)", "short-read introns: sorted list of <=3 disjoint intervals separated by at least one exonic base"]
 OUTSIDE = ["get_error_count's use of aligned pairs (pysam)", "coordinates inside the chromosome (needs the FASTA index)"]
 
 
@@ -124,7 +124,7 @@ def h_correct(locus, tid, i, j, preset, shape, strategy=None):
 def h_illumina(n_exons, n_short):
     def fn(g):
         read = interval_list(g, "read_exon", n_exons, lo=1, gap=2, minlen=10)
-        short = interval_list(g, "short_intron", n_short, lo=1, gap=1, minlen=2) if n_short else []
+        short = interval_list(g, "short_intron", n_short, lo=1, gap=2, minlen=2) if n_short else []
         c = illumina.IlluminaExonCorrector.from_data(list(short))
         out = call(g, c.correct_exons, read)
         ex = g.excl({"C14-illumina-intron-over-read-end": OR([OR(s_[0] <= read[0][0], s_[1] >= read[-1][1]) for s_ in short] or [False])})
